@@ -16,6 +16,7 @@
 # limitations under the License.
 # -----------------------------------------------------------------------------
 from __future__ import annotations
+import functools
 import logging
 import os
 import sqlite3
@@ -167,6 +168,22 @@ CREATE TRIGGER IF NOT EXISTS
       WHERE key_id=NEW.key_id;
   END;
 """
+
+
+def _transaction(func):
+    """
+    Roll back the pending database transaction if a Keychain operation fails part-way,
+    so that its uncommitted writes are not picked up by the next operation's commit.
+    """
+    @functools.wraps(func)
+    def wrapper(self, *args, **kwargs):
+        try:
+            return func(self, *args, **kwargs)
+        except Exception:
+            if self.conn is not None:
+                self.conn.rollback()
+            raise
+    return wrapper
 
 
 class Certificate(AbstractCertificate):
@@ -514,6 +531,7 @@ class KeychainSqlite3(Keychain):
         cursor.close()
         return ret
 
+    @_transaction
     def set_default_identity(self, name: NonStrictName):
         """
         Set the default Identity.
@@ -539,6 +557,7 @@ class KeychainSqlite3(Keychain):
         cursor.close()
         return Identity(self, row_id, Name.from_bytes(identity), is_default != 0)
 
+    @_transaction
     def new_identity(self, name: NonStrictName) -> Identity:
         """
         Create a new Identity without a default Key.
@@ -558,6 +577,7 @@ class KeychainSqlite3(Keychain):
             self.set_default_identity(name)
         return self[name]
 
+    @_transaction
     def touch_identity(self, id_name: NonStrictName) -> Identity:
         """
         Get an Identity with specific name. Create a new one if it does not exist.
@@ -594,6 +614,7 @@ class KeychainSqlite3(Keychain):
         self.conn.close()
         self.conn = None
 
+    @_transaction
     def del_identity(self, name: NonStrictName):
         """
         Delete a specific Identity.
@@ -651,6 +672,7 @@ class KeychainSqlite3(Keychain):
             self._signer_cache[cache_key] = signer
         return signer
 
+    @_transaction
     def del_key(self, name: NonStrictName):
         """
         Delete a specific Key.
@@ -668,6 +690,7 @@ class KeychainSqlite3(Keychain):
         self.tpm.delete_key(formal_name)
         self._signer_cache = {}
 
+    @_transaction
     def del_cert(self, name: NonStrictName):
         """
         Delete a specific Certificate.
@@ -680,6 +703,7 @@ class KeychainSqlite3(Keychain):
         self.conn.commit()
         self._signer_cache = {}
 
+    @_transaction
     def new_key(self, id_name: NonStrictName, key_type: str = 'ec', **kwargs) -> Key:
         """
         Generate a new key for a specific Identity.
@@ -722,6 +746,7 @@ class KeychainSqlite3(Keychain):
             identity.set_default_key(key_name)
         return identity[key_name]
 
+    @_transaction
     def import_cert(self, key_name: NonStrictName, cert_name: NonStrictName, cert_data: BinaryStr):
         key_name = Name.to_bytes(key_name)
         cert_name = Name.to_bytes(cert_name)
